@@ -156,6 +156,24 @@ def extract_window(ctx, prog, rule):
                 short_b = oe[0]
                 nones = [b for b, s, cls, p in f.ret_assignments() if cls == "none"]
                 ok_guard = bool(nones) and all(b in reach(f.cfg(), [short_b]) for b in nones) and not any(b in reach(f.cfg(), [short_b]) for b, s, cls, p in f.ret_assignments() if cls == "some")
+    # the same guard spelled `self.available().checked_sub(bits)?` (None exactly when fewer bits are available)
+    def _is_short_sub(t):
+        t = strip(t)
+        return (t[0] == "call" and t[1].rsplit("::", 1)[-1] == "checked_sub" and len(t[2]) == 2 and strip(t[2][0])[0] == "call"
+                and strip(t[2][0])[1].endswith("::available") and strip_casts(t[2][1]) == ("param", 2))
+    shorts = []
+    for bi, t in f.calls(lambda c, t: c.rsplit("::", 1)[-1] == "checked_sub"):
+        if _is_short_sub(R._call(t, bi, 0, frozenset())):
+            br = branch_of_call(f, bi)
+            if br is not None and br[2] is not None:
+                shorts.append(br[2])
+    for sw, some_s, none_s in option_tests(f, R, _is_short_sub):
+        shorts.append(none_s)
+    for short_b in shorts:
+        nones = [b for b, s, cls, p in f.ret_assignments() if cls in ("none", "err")]
+        somes = [b for b, s, cls, p in f.ret_assignments() if cls == "some"]
+        if not any(b in reach(f.cfg(), [short_b]) for b in somes) and (not nones or any(b in reach(f.cfg(), [short_b]) for b in nones)):
+            ok_guard = True
     ctx.ob(rule, "window/availability-guard", ok_guard, "extract returns None when fewer than `bits` bits are available and never yields then")
     a = prog.fn("bs_read::ByteStreamReadBuffer::available")
     ctx.fn_seen(a)
